@@ -1265,6 +1265,7 @@ pub const BUGS: &[&str] = &[
     "deep-nesting-closed",
     "tileset-bomb",
     "indexed-bomb-missing-index",
+    "userdata-props-deep",
 ];
 
 fn ensure_tilemap(s: &mut SpriteSpec, r: &mut Rng) -> usize {
@@ -2568,6 +2569,58 @@ pub fn apply_bug(s: &mut SpriteSpec, bug: &str, r: &mut Rng, scale: usize) -> St
                 s.durations.push(100);
             }
             "a tags chunk (0..3 tags) followed by user data in a frame other than the first (applied on bytes)".into()
+        }
+        "userdata-props-deep" => {
+            // Aseprite 1.3 property maps are a recursive structure (vectors of vectors, maps in
+            // maps): `scale` levels at 6..9 bytes per level, attached to the first layer
+            let depth = scale.max(1);
+            let mut m: Vec<u8> = Vec::new();
+            m.extend_from_slice(&1u32.to_le_bytes()); // number of maps
+            m.extend_from_slice(&0u32.to_le_bytes()); // map key: user properties
+            m.extend_from_slice(&1u32.to_le_bytes()); // one property
+            m.extend_from_slice(&1u16.to_le_bytes());
+            m.push(b'p');
+            let shape = scale % 3;
+            match shape {
+                0 => {
+                    // vector whose element type is vector, ...
+                    m.extend_from_slice(&0x11u16.to_le_bytes());
+                    for _ in 0..depth {
+                        m.extend_from_slice(&1u32.to_le_bytes());
+                        m.extend_from_slice(&0x11u16.to_le_bytes());
+                    }
+                    m.extend_from_slice(&0u32.to_le_bytes());
+                    m.extend_from_slice(&1u16.to_le_bytes());
+                }
+                1 => {
+                    // nested property maps
+                    m.extend_from_slice(&0x12u16.to_le_bytes());
+                    for _ in 0..depth {
+                        m.extend_from_slice(&1u32.to_le_bytes());
+                        m.extend_from_slice(&1u16.to_le_bytes());
+                        m.push(b'q');
+                        m.extend_from_slice(&0x12u16.to_le_bytes());
+                    }
+                    m.extend_from_slice(&0u32.to_le_bytes());
+                }
+                _ => {
+                    // vectors of mixed element type (0): every element names its own type
+                    m.extend_from_slice(&0x11u16.to_le_bytes());
+                    for _ in 0..depth {
+                        m.extend_from_slice(&1u32.to_le_bytes());
+                        m.extend_from_slice(&0u16.to_le_bytes());
+                        m.extend_from_slice(&0x11u16.to_le_bytes());
+                    }
+                    m.extend_from_slice(&0u32.to_le_bytes());
+                    m.extend_from_slice(&1u16.to_le_bytes());
+                }
+            }
+            let mut blob = Vec::new();
+            blob.extend_from_slice(&((m.len() + 4) as u32).to_le_bytes());
+            blob.extend_from_slice(&m);
+            let text = if r.chance(1, 2) { Some("t".to_string()) } else { None };
+            s.layers[0].ud = Some(UserData { text, color: None, props: Some(blob) });
+            format!("user data property map nested {} deep (shape {})", depth, shape)
         }
         "dangling-user-data" => {
             // user data in a file with no preceding attachable entity
